@@ -170,3 +170,52 @@ def c16_subclass_constructor_rerun(case, result):
     if case['cls'] == 'KO':
         return result.get('status') == 'TypeError'
     return result.get('obs', [None])[0] == ['PT', [['x', -2000], ['y', -1001]]]
+
+def c19_frozenset_key_order(case, result):
+    # loop(list, tuple, dict)(f)(arg, *companions, **kw): a looped dict of arg and a dict companion that reaches it (by the property's own rule)
+    # have the SAME key set, every key a frozenset, but in different insertion orders for which Python's sorted() - on frozensets a subset
+    # partial order that never raises - returns different lists; _sorted_keys is then not canonical, the code does not see "same keys" and
+    # hands the WHOLE companion to every value of that dict.  True only if the observed result is exactly that: the property's rule
+    # everywhere else, the companion passed whole at such dicts (key ids of harness/props/c19.py: 50 {1}, 51 {1,2}, 52 {3}, 53 {2,3}).
+    if case.get('kind') != 'loop' or case.get('types', 'LTD') != 'LTD' or result.get('status') != 'ok':
+        return False
+    FS = {50: frozenset({1}), 51: frozenset({1, 2}), 52: frozenset({3}), 53: frozenset({2, 3})}
+    seq = lambda s: isinstance(s, dict) and ('L' in s or 'T' in s)
+    els = lambda s: s['L'] if 'L' in s else s['T']
+    isd = lambda s: isinstance(s, dict) and 'D' in s
+    keys = lambda s: [k for k, _ in s['D'][1]]
+    hit = []
+    def trigger(a, c):
+        ka, kc = keys(a), keys(c)
+        return (len(ka) >= 2 and all(k in FS for k in ka) and all(k in FS for k in kc)
+                and sorted(FS[k] for k in ka) != sorted(FS[k] for k in kc))
+    def ren(x):
+        if isinstance(x, int): return x
+        if seq(x): return ['L' if 'L' in x else 'T'] + [ren(y) for y in els(x)]
+        return ['D', x['D'][0]] + [[k, ren(v)] for k, v in x['D'][1]]
+    named = case.get('mode') == 'named'
+    def leaf(a, pos, kw):
+        if named:
+            b = dict(kw); b.update({i: c for i, c in enumerate(pos)})
+            return ['T', a, ren(b[0]) if 0 in b else -1, ren(b[1]) if 1 in b else -1]
+        return ['T', a, ['T'] + [ren(c) for c in pos], ['D', 0] + [[n, ren(c)] for n, c in kw]]
+    def lift(a, pos, kw):
+        if seq(a):
+            n = len(els(a))
+            pick = lambda c, i: els(c)[i] if seq(c) and len(els(c)) == n else c
+            return ['L' if 'L' in a else 'T'] + [lift(x, [pick(c, i) for c in pos], [[m, pick(c, i)] for m, c in kw]) for i, x in enumerate(els(a))]
+        if isd(a):
+            ks = set(keys(a))
+            def pickk(c, k):
+                if isd(c) and set(keys(c)) == ks and len(keys(c)) == len(ks):
+                    if trigger(a, c):
+                        hit.append(1); return c            # what the code does: no match, the companion goes down whole
+                    return dict((kk, v) for kk, v in c['D'][1])[k]
+                return c
+            return ['D', a['D'][0]] + [[k, lift(v, [pickk(c, k) for c in pos], [[m, pickk(c, k)] for m, c in kw])] for k, v in a['D'][1]]
+        return leaf(a, pos, kw)
+    try:
+        alt = lift(case['arg'], list(case.get('pos', [])), [list(x) for x in case.get('kw', [])])
+    except Exception:
+        return False
+    return bool(hit) and alt == result.get('obs')
